@@ -32,7 +32,7 @@ PY = os.environ.get("VERIF_PYTHON", "/venv/bin/python")
 COQ = os.path.join(VERIF, "coq")
 DRIVERS = os.path.join(VERIF, "harness", "drivers")
 REPLAYS = os.path.join(VERIF, "replays")
-EVIDENCE = os.path.join(VERIF, "evidence")
+EVIDENCE = os.environ.get("VERIF_EVIDENCE_DIR") or os.path.join(VERIF, "evidence")   # overridden only by bin/tryseed
 CORPUS = os.path.join(VERIF, "corpus")
 KNOWN = os.path.join(VERIF, "known_findings.txt")
 NCPU = os.cpu_count() or 4
